@@ -238,7 +238,11 @@ CLAIMED.update({
              "private copies of captured variables) provably break them. Tied to the code by the regenerated text of goStmt/spawnExpr/lockMethod/"
              "condVarMethod/waitGroupMethod (rfl) and by running generated race-free programs natively (many runs, race detector, watchdog) and "
              "through the real goose plus an exhaustive scheduler of the Lean interpreter: Go outcomes must be GooseLang outcomes, and "
-             "schedule-independent programs must have exactly one.",
+             "schedule-independent programs must have exactly one. In addition (Model/Conc, 28 theorems): a label-preserving bisimulation up to "
+             "administrative steps between the small-step thread-pool semantics of every accepted program of go/mutex/wait-group/condition-variable "
+             "statements and of its translation; hence every Go outcome under every schedule is an outcome of the emitted program (under Go's sync.Cond "
+             "reading and under Perennial's), no new deadlock or stuck thread, captured variables are shared cells; tied by the tree goose emits, "
+             "by exhaustive exploration of the emitted text and by native runs.",
         ref="DESIGN.md §6 C03",
         note="The theorems are about protocol models, not about the emitted text; the emitted text is covered by the exhaustive scheduler on "
              "generated instances (partial: bounded programs; Go's schedules are sampled, so a Go-only outcome can be missed, never invented). "
